@@ -482,6 +482,9 @@ class SQLTranspiler(StructureVisitor, ASTTemplate):
         """Visit a variable identifier."""
         name = node.value
 
+        if self._dp_signature is not None and name in self._dp_signature:
+            return quote_name(self._dp_signature[name])
+
         udo_val = self._get_udo_param(name)
         if udo_val is not None:
             return self._resolve_udo_param(name, udo_val)
